@@ -45,7 +45,7 @@ ASSUMPTIONS = ['IEEE rounding is not modelled: patterns compared within 1e-9 rel
                'tables strictly increasing in wavelength, positive opacities, covering 0.55 micron',
                'unit conversions of table / V / queries are done by astropy in float on the harness side exactly as '
                'get_av does (wav.to(self.wav.unit)); the model receives those floats']
-N = {'quick': 1000, 'thorough': 20000}
+N = {'quick': 1000, 'thorough': 80000}
 UNIT_EXP = {'micron': 0, 'nm': 3, 'm': -6, 'AA': 4, 'cm': -4, 'mm': -3}     # 1 micron = 10**exp units
 BOUNDARY_FINDING = 'Extinction.get_av:boundary-unit-conversion'   # match key for KNOWN_FINDINGS.txt
 # a query / V that lies inside the table in exact arithmetic but is moved 1 ulp outside by the float unit conversion
